@@ -166,6 +166,23 @@ func loadRes(text []byte) (*project.Config, string) {
 	return c, "ok " + cfgStr(c)
 }
 
+// loadFile: what LoadConfigFile makes of the file write() left behind (the judge goes through the file, as get/tidy and
+// project loading do; LoadConfigBytes on the same bytes is the correspondence stream config.load)
+func loadFile() (*project.Config, string) {
+	var c *project.Config
+	var err error
+	if pan := safe(func() { c, err = project.LoadConfigFile(filepath.Join(dir, "dawn.toml")) }); pan != nil {
+		return nil, "panic"
+	}
+	if err != nil {
+		if strings.Contains(err.Error(), "invalid version") {
+			return nil, "err badVersion"
+		}
+		return nil, "outside: " + err.Error()
+	}
+	return c, "ok"
+}
+
 // utf8ok: all strings valid UTF-8 (the rest of C19's quantifier — canonical versions, paths in clean form — is decided by
 // the model, not here and not by the implementation's own CleanPath)
 func utf8ok(c *project.Config) bool {
@@ -209,6 +226,15 @@ func oneConfig(c *project.Config, r *rng) {
 	// ---- C19 on the implementation: the outcome is recorded for every configuration; whether the configuration is
 	// inside the quantifier is the model's decision (checks/C19.py)
 	if utf8ok(c) {
+		cf, fres := loadFile()
+		if fres == "panic" {
+			violation("panic", c, "LoadConfigFile panicked on a written file")
+			return
+		}
+		if (cf == nil) != (c2 == nil) || (cf != nil && cfgStr(cf) != cfgStr(c2)) {
+			stats["file_and_bytes_loads_differ"]++
+			c2, res = cf, fres // the file is what counts
+		}
 		switch {
 		case c2 == nil:
 			judged(in, "noload "+hx(fmt.Sprintf("%s; file: %s", res, text)))
@@ -320,6 +346,155 @@ func isPlain(k string) bool {
 		}
 	}
 	return true
+}
+
+// ---- size classes: valid configurations (plain names, canonical versions, clean paths without `@`, by construction)
+// whose encoding has a chosen size. Judged on the implementation only: WriteConfigFile, LoadConfigFile, and again.
+
+func sizeConfig(kind string, n int, pad int) *project.Config {
+	c := &project.Config{Name: "size-" + strings.Repeat("n", pad), Version: "1"}
+	switch kind {
+	case "reqs": // n requirements with long paths
+		c.Ignore = []string{"*.tmp"}
+		c.Requirements = make(map[string]project.RequirementConfig, n)
+		for i := 0; i < n; i++ {
+			c.Requirements[fmt.Sprintf("lib%07d", i)] = project.RequirementConfig{
+				Path: fmt.Sprintf("example.com/organisation/repository/some/long/path/lib%07d", i), Version: "v1.2.3"}
+		}
+	case "strings": // a few huge strings: n bytes spread over the version, three ignore entries and one requirement path
+		q := n / 5
+		c.Version = strings.Repeat("v", q)
+		c.Ignore = []string{strings.Repeat("a", q), "it's " + strings.Repeat("\"\\\t", q/6), strings.Repeat("\u00e9", q/2)}
+		c.Requirements = map[string]project.RequirementConfig{"big": {Path: strings.Repeat("p/", q/2) + "p", Version: "v1.2.3"}}
+	}
+	return c
+}
+
+func encodedSize(c *project.Config) int {
+	t, err := write(c)
+	if err != nil {
+		return -1
+	}
+	return len(t)
+}
+
+// sized: a configuration of the given kind whose encoding is exactly target bytes (the name is padded)
+func sized(kind string, target int) *project.Config {
+	n := target / 98
+	if kind == "strings" {
+		n = target - 200
+	}
+	for try := 0; try < 6; try++ {
+		got := encodedSize(sizeConfig(kind, n, 0))
+		if got < 0 {
+			return nil
+		}
+		if got <= target {
+			if c := sizeConfig(kind, n, target-got); encodedSize(c) == target {
+				return c
+			}
+		}
+		if kind == "reqs" {
+			n -= 1 + (got-target)/98
+		} else {
+			n -= 64 + (got - target)
+		}
+		if n < 0 {
+			n = 0
+		}
+	}
+	return nil
+}
+
+// aligned: many requirements, the name padded so that byte offset `at` of the file is the first byte of a line
+func aligned(at int) *project.Config {
+	n := at/98 + 40
+	t, err := write(sizeConfig("reqs", n, 0))
+	if err != nil || len(t) <= at {
+		return nil
+	}
+	j := bytes.LastIndexByte(t[:at], '\n') // last line end before the mark
+	return sizeConfig("reqs", n, at-1-j)
+}
+
+func sizeCase(desc string, c *project.Config) {
+	if c == nil {
+		stats["size_cases_not_constructible"]++
+		return
+	}
+	stats["size_cases"]++
+	fail := func(kind, detail string) {
+		nviol++
+		stats["violation_"+kind]++
+		b, _ := json.Marshal(map[string]any{"kind": kind, "detail": detail, "config": desc, "input": "size:" + desc})
+		fmt.Fprintf(out, "V\t%s\n", b)
+	}
+	text, err := write(c)
+	if err != nil {
+		fail("write-failed", err.Error())
+		return
+	}
+	stats["size_largest_file_bytes"] = max(stats["size_largest_file_bytes"], len(text))
+	if strings.HasPrefix(desc, "aligned:") {
+		var at int
+		fmt.Sscanf(desc, "aligned:%d", &at)
+		if at >= len(text) || text[at-1] != '\n' {
+			stats["size_cases_not_constructible"]++
+			return
+		}
+	}
+	c2, res := loadFile()
+	want := cfgStr(c)
+	switch {
+	case res == "panic":
+		fail("panic", "LoadConfigFile panicked")
+	case c2 == nil:
+		fail("written-file-does-not-load", fmt.Sprintf("%d-byte file with %d requirements: %s", len(text), len(c.Requirements), res))
+	case cfgStr(c2) != want:
+		fail("loaded-configuration-differs", fmt.Sprintf("%d-byte file: wrote %d requirements, %d ignore entries, version of %d bytes; loaded %d requirements, %d ignore entries, version of %d bytes",
+			len(text), len(c.Requirements), len(c.Ignore), len(c.Version), len(c2.Requirements), len(c2.Ignore), len(c2.Version)))
+	default:
+		text2, err := write(c2)
+		if err != nil {
+			fail("write-failed", err.Error())
+		} else if !bytes.Equal(text, text2) {
+			fail("rewrite-not-stable", fmt.Sprintf("%d bytes, then %d bytes", len(text), len(text2)))
+		}
+	}
+}
+
+func sizeByDesc(desc string) *project.Config {
+	var kind string
+	var n int
+	f := strings.Split(desc, ":")
+	if len(f) != 2 {
+		return nil
+	}
+	kind = f[0]
+	fmt.Sscanf(f[1], "%d", &n)
+	if kind == "aligned" {
+		return aligned(n)
+	}
+	return sized(kind, n)
+}
+
+func sizeClasses(thorough bool) {
+	marks := []int{1 << 16, 1 << 20}
+	var descs []string
+	for _, m := range marks {
+		for _, kind := range []string{"reqs", "strings"} {
+			descs = append(descs, fmt.Sprintf("%s:%d", kind, m-1), fmt.Sprintf("%s:%d", kind, m+1), fmt.Sprintf("%s:%d", kind, m+m/8))
+		}
+		descs = append(descs, fmt.Sprintf("aligned:%d", m))
+	}
+	descs = append(descs, "reqs:3200000", "aligned:2097152")
+	if thorough {
+		descs = append(descs, "strings:3200000", "aligned:4194304", "reqs:4194305", "reqs:16800000", "strings:16800000", "aligned:16777216",
+			"reqs:131073", "strings:262145", "aligned:131072", "aligned:262144", "aligned:524288", "aligned:8388608")
+	}
+	for _, d := range descs {
+		sizeCase(d, sizeByDesc(d))
+	}
 }
 
 // ---- generators
@@ -454,6 +629,11 @@ func main() {
 
 	if *rp != "" {
 		corrOff = true
+		if strings.HasPrefix(*rp, "size:") {
+			d := strings.TrimPrefix(*rp, "size:")
+			sizeCase(d, sizeByDesc(d))
+			return
+		}
 		oneConfig(parseCfg(*rp), nil)
 		return
 	}
@@ -493,6 +673,9 @@ func main() {
 		oneConfig(genConfig(r, false), r)
 	}
 	stats["random_configs"] = n + n/5
+
+	// ---------------------------------------------------------------- size classes (implementation only)
+	sizeClasses(thorough)
 
 	// ---------------------------------------------------------------- 3. CleanPath and the version test on their own
 	for _, p := range append(append([]string{}, atPaths...), uncleanPaths...) {
